@@ -984,7 +984,7 @@ def to_poly(e: expr.Expr, conds: Conditions) -> Polynomial:
         conds2 = Conditions(conds)
         if e.lim == expr.POS_INF:
             conds2.add_condition(expr.Op(">", expr.Var(e.var), expr.Const(0)))
-        return singleton(expr.Limit(e.var, normalize(e.lim, conds), normalize(e.body, conds2)), conds)
+        return singleton(expr.Limit(e.var, normalize(e.lim, conds), normalize(e.body, conds2), e.drt), conds)
 
     elif e.is_inf():
         if e == expr.POS_INF:
